@@ -74,12 +74,24 @@ RULE = ("histories = one cell space (Moore/von Neumann grid in 1-3 dimensions, h
         "255/256/257/300/512/600 other tiny grids built, deep-copied and pickled, then the subject copied with the full "
         "faithfulness + detachment check (writes through both sides, moves on both sides, the original still copyable); copy "
         "chains 100-520 long; 257-520 copies of one space; AgentSets with 1000-4097 members; grids with 256-1089 cells / up to "
-        "300 agents and 256-1089-node networks with warm neighbourhood caches; non-trivial = a copy succeeded and >= 2 later operations changed something; distinct = "
-        "by SHA1 of the history; 16 corpus histories always first; enumerator = 606 scripted cases + 20 exotic + 72 multi")
+        "300 agents and 256-1089-node networks with warm neighbourhood caches; and an ORACLE-ONLY USER-CODE stream (40 per quick "
+        "run, 200 in thorough, 240 in the enumerator; user code is an input, the Coq model is unchanged and these histories "
+        "run on implementation + oracle only): spaces built with cell_klass = a user Cell subclass (class-level defaults "
+        "empty / visits / tags shadowed per instance, an extra cached_property that was read, __getstate__/__setstate__ "
+        "overrides calling super, a subclass with __slots__ of its own), on a Network, a VoronoiGrid, an OrthogonalMooreGrid, "
+        "a user subclass of OrthogonalMooreGrid (overridden _connect_cells hook, extra attribute) and a user subclass of "
+        "Network, with a PropertyLayer subclass, agents of five user CellAgent subclasses (extra mutable state, __slots__, "
+        "__getstate__ override, falsy, value-based __eq__/__hash__) and a user AgentSet subclass held by a user Model subclass; "
+        "copied through the roots model / space / an agent / model.agents / the AgentSet subclass / from inside a callback run "
+        "by agents.do while a later callback raises; the copy is compared with the original on cells, agents, layers, classes "
+        "of space / cells / layers / sets, per-instance cell attributes READ BACK through the class (empty, visits, note), "
+        "slot values, space attributes; shares no object; cached collections refer to its own cells; then moves and writes "
+        "on the copy leave the original alone and keep `empty` tracking; non-trivial = a copy succeeded and >= 2 later operations changed something; distinct = "
+        "by SHA1 of the history; 16 corpus histories always first; enumerator = 606 scripted cases + 20 exotic + 72 multi + 240 user")
 TRUSTED_BASE = [
     "Coq 8.16.1 kernel (coqc); vm_compute for the non-vacuity Examples and for evaluating run_world in the correspondence",
     "no axioms: Print Assumptions reports 'Closed under the global context' for each of the 38 C19 theorems",
-    "harness/props/C19.py: driver + observer, freshly-built-twin oracle, exotic oracle-only stream, Gallina literal "
+    "harness/props/C19.py: driver + observer, freshly-built-twin oracle, oracle-only streams (exotic, multi, scale, user code), Gallina literal "
     "printer (T2, differential testing, not a proof); exceptions are classified by type and raising function, never by message",
     "harness/tables/c19_copy_code.py + harness/pyexpr.py (T1, code level, 10 constructs regenerated on every run): "
     "Cell.__slots__; Cell.__getstate__ (dict part and its filter, slot filter, emptied slots); pickle_gridcell filter and "
@@ -116,6 +128,10 @@ ASSUMPTIONS = [
     "after remove_property_layer('empty') the instance attribute cell.empty is excluded from the faithful / fresh "
     "comparisons (a grid copy drops it: C19_remove_empty_copy_refuted) but stays in the correspondence; "
     "C19_world_invariant / C19_world_refinement exclude histories with that operation",
+    "user-code stream: only what HEAD does is demanded - grid cells drop their instance __dict__ (so user attributes of "
+    "grid cells are not compared), attributes my own user hooks write during a copy are not compared, and the variant whose "
+    "Cell subclass declares __slots__ is switched on by a probe of Cell.__getstate__ (on HEAD such a cell cannot be copied at "
+    "all: finding C19-4, patch in fixes/; with the patch applied the variant runs and passes)",
     "in the Gallina model layer values are ints (bool layer 'empty': 0/1); floats, big ints and other value types are "
     "covered by the oracle-only exotic stream; Voronoi capacities are observed as min(capacity, 99)",
 ]
@@ -400,7 +416,7 @@ def _exotic_cases(rng, n):
 
 
 def gen_cases(rng, tier):
-    cases = _exotic_cases(rng, 20 if tier == "quick" else 100) + _multi_cases(rng, 24 if tier == "quick" else 120) + _scale_cases(rng, tier)
+    cases = _exotic_cases(rng, 20 if tier == "quick" else 100) + _multi_cases(rng, 24 if tier == "quick" else 120) + _scale_cases(rng, tier) + _user_cases(rng, 40 if tier == "quick" else 200)
     n = 600 if tier == "quick" else 12000
     for i in range(n):
         if rng.random() < 0.12:
@@ -422,6 +438,7 @@ def _enumerate_exotic():
 def enumerate_cases(tier, broken=False):
     yield from _enumerate_exotic()
     yield from _enumerate_multi()
+    yield from _enumerate_user()
     if broken or tier == "thorough":
         yield from _enumerate_scale()
     yield from _enumerate_main(tier, broken)
@@ -1971,6 +1988,335 @@ def _run_scale(case):
     return {"obs": [], "failures": failures, "model": False}
 
 
+
+# ------------------------------------------------------------------ oracle-only stream: USER subclasses and callbacks
+_UCLS = {}
+USER_CELLS = ("UCellDefaults", "UCellCached", "UCellState", "UCellSlots")
+USER_SPACES = ("net", "vor", "moore", "ugrid", "unet")
+USER_ROOTS = ("model", "space", "agent", "agentset", "userset", "callback")
+
+
+def _user_classes():
+    if not _UCLS:
+        from functools import cached_property
+
+        import mesa
+        from mesa.agent import AgentSet
+        from mesa.discrete_space import Cell, CellAgent, Network, OrthogonalMooreGrid, PropertyLayer
+
+        class UCellDefaults(Cell):
+            """class-level defaults that instances override"""
+            empty = True
+            visits = 0
+            tags = ()
+
+        class UCellCached(Cell):
+            """an additional cached_property and an extra instance attribute"""
+            @cached_property
+            def wide(self):
+                return self.get_neighborhood(radius=2)
+
+        class UCellDefaultsG(Cell):
+            """the same for grids (a class attribute `empty` would clash with the grid's own layer)"""
+            visits = 0
+            tags = ()
+
+        class UCellState(Cell):
+            """__getstate__ / __setstate__ overridden, calling super / doing what the default does, plus bookkeeping"""
+            calls = 0
+
+            def __getstate__(self):
+                type(self).calls += 1
+                return super().__getstate__()
+
+            def __setstate__(self, state):
+                d, slots = state
+                if d:
+                    self.__dict__.update(d)
+                for k, v in (slots or {}).items():
+                    setattr(self, k, v)
+
+        class UCellSlots(Cell):
+            """a subclass that declares a slot of its own"""
+            __slots__ = ["extra"]
+
+        class UAgent(CellAgent):
+            def __init__(self, model, vid):
+                super().__init__(model)
+                self.vid = vid
+
+        class UAgentSlots(UAgent):
+            __slots__ = ("energy",)
+
+        class UAgentState(UAgent):
+            calls = 0
+
+            def __getstate__(self):
+                type(self).calls += 1
+                return dict(self.__dict__)
+
+            def __setstate__(self, state):
+                self.__dict__.update(state)
+
+        class UAgentFalsy(UAgent):
+            def __bool__(self):
+                return False
+
+        class UAgentValueEq(UAgent):
+            """value-based equality (used for model-rooted copies only: a value hash cannot work while the object is restored)"""
+            def __eq__(self, other):
+                return isinstance(other, UAgentValueEq) and (self.unique_id, id(self.model)) == (other.unique_id, id(other.model))
+
+            def __hash__(self):
+                return hash(self.unique_id)
+
+        class UAgentSet(AgentSet):
+            """docstring-only subclass with a helper"""
+            def labels(self):
+                return [a.vid for a in self]
+
+        class UGrid(OrthogonalMooreGrid):
+            """a space subclass with an extra attribute and a hook that calls super"""
+            def __init__(self, *a, note="ugrid", **kw):
+                super().__init__(*a, **kw)
+                self.note = note
+
+            def _connect_cells(self):
+                super()._connect_cells()
+                self.connected = getattr(self, "connected", 0) + 1
+
+        class UNetwork(Network):
+            def __init__(self, *a, note="unet", **kw):
+                super().__init__(*a, **kw)
+                self.note = note
+
+        class ULayer(PropertyLayer):
+            def __init__(self, *a, unit="m", **kw):
+                super().__init__(*a, **kw)
+                self.unit = unit
+
+        class UModel(mesa.Model):
+            """a model subclass whose step runs user code that copies the model in the middle of an activation"""
+            def __init__(self, seed=None):
+                super().__init__(seed=seed)
+                self.copies = []
+
+        for k in (UCellDefaults, UCellDefaultsG, UCellCached, UCellState, UCellSlots, UAgent, UAgentSlots, UAgentState, UAgentFalsy, UAgentValueEq,
+                  UAgentSet, UGrid, UNetwork, ULayer, UModel):
+            k.__module__ = __name__
+            k.__qualname__ = k.__name__
+            globals()[k.__name__] = k
+            _UCLS[k.__name__] = k
+    return _UCLS
+
+
+def _user_cases(rng, n):
+    out = []
+    for i in range(n):
+        out.append({"kind": "user", "stype": "user", "cell": USER_CELLS[i % len(USER_CELLS)], "space": USER_SPACES[(i // 4) % len(USER_SPACES)],
+                    "root": USER_ROOTS[rng.randrange(len(USER_ROOTS))], "mech": rng.randrange(2), "salt": rng.randrange(1000), "ops": []})
+    return out
+
+
+def _enumerate_user():
+    for cell in USER_CELLS:
+        for space in USER_SPACES:
+            for root in USER_ROOTS:
+                for mech in (0, 1):
+                    yield {"kind": "user", "stype": "user", "cell": cell, "space": space, "root": root, "mech": mech, "salt": 11, "ops": []}
+
+
+def _udescribe(sp, model):
+    """_xdescribe + the user-visible extras: classes of space / cells / layers, extra attributes of the space and the layers,
+    slots added by subclasses"""
+    d = _xdescribe(sp, model)
+    isgrid = hasattr(sp, "_mesa_property_layers")
+    if isgrid:
+        # pickle_gridcell drops the instance __dict__ of grid cells (documented, C19_user_attrs_carried): not compared
+        d["cells"] = tuple(x[:4] + x[5:] for x in d["cells"])
+    d["classes"] = (type(sp).__qualname__, tuple(sorted({b.__qualname__ for c in sp._cells.values() for b in type(c).__mro__[:2]})),
+                    tuple((n, type(l).__qualname__, _canon(getattr(l, "unit", None))) for n, l in getattr(sp, "_mesa_property_layers", {}).items()))
+    d["space_attrs"] = tuple((k, _canon(v)) for k, v in sorted(vars(sp).items()) if k in ("note", "capacity", "torus", "dimensions"))
+    d["slots"] = tuple(_canon(getattr(c, "extra", "UNSET")) for c in sp._cells.values())
+    d["agent_slots"] = tuple(_canon(getattr(a, "energy", "UNSET")) for c in sp._cells.values() for a in c._agents)
+    d["cell_attr_reads"] = tuple((bool(c.empty) if hasattr(c, "empty") else "MISSING",
+                                  "NA" if isgrid else getattr(c, "visits", "NA"), "NA" if isgrid else _canon(getattr(c, "note", "NA")))
+                                 for c in sp._cells.values())
+    return d
+
+
+def _head_handles_subclass_slots():
+    U = _user_classes()
+    c = U["UCellSlots"]((0, 0))
+    c.extra = 1
+    st = c.__getstate__()
+    return isinstance(st, tuple) and len(st) == 2 and isinstance(st[1], dict) and "coordinate" in st[1] and "extra" in st[1]
+
+
+def _user_build(case):
+    import warnings
+
+    import networkx as nx
+    from mesa.discrete_space import Network, OrthogonalMooreGrid, VoronoiGrid
+
+    U = _user_classes()
+    salt = case["salt"]
+    grid_space = case["space"] in ("moore", "ugrid")
+    cellk = U["UCellDefaultsG" if (case["cell"] == "UCellDefaults" and grid_space) else case["cell"]]
+    m = U["UModel"](seed=1)
+    with warnings.catch_warnings():
+        warnings.simplefilter("ignore")
+        st = case["space"]
+        if st == "net":
+            sp = Network(nx.cycle_graph(5), capacity=2, random=m.random, cell_klass=cellk)
+        elif st == "unet":
+            sp = U["UNetwork"](nx.path_graph(4), capacity=None, random=m.random, cell_klass=cellk, note="n%d" % salt)
+        elif st == "vor":
+            sp = VoronoiGrid(VOR_POINTS[salt % len(VOR_POINTS)], capacity=None, random=m.random, cell_klass=cellk)
+        elif st == "ugrid":
+            sp = U["UGrid"]((2, 3), torus=False, capacity=2, random=m.random, cell_klass=cellk, note="g%d" % salt)
+        else:
+            sp = OrthogonalMooreGrid((3, 2), torus=True, capacity=2, random=m.random, cell_klass=cellk)
+        if hasattr(sp, "add_property_layer"):
+            lay = U["ULayer"]("heat", sp.dimensions, default_value=0.5, dtype=float, unit="K")
+            sp.add_property_layer(lay)
+            lay.data[...] = lay.data + 0.125 * __import__("numpy").arange(lay.data.size).reshape(lay.data.shape)
+    m.grid = sp
+    cells = list(sp._cells.values())
+    for i, c in enumerate(cells):
+        if case["cell"] == "UCellDefaults":
+            c.visits = i + salt                   # per-instance values over class-level defaults
+            if i % 2:
+                c.tags = ("t", i)
+        elif case["cell"] == "UCellCached":
+            c.note = [i, "note"]
+            c.wide                                # cache the additional cached_property
+            c.neighborhood
+        elif case["cell"] == "UCellSlots":
+            c.extra = i * 10 + 1
+        else:
+            c.payload = {"i": i}
+    kinds = ["UAgent", "UAgentSlots", "UAgentState", "UAgentFalsy"] + (["UAgentValueEq"] if case["root"] in ("model", "callback") else [])
+    for i in range(5):
+        a = U[kinds[(i + salt) % len(kinds)]](m, i + 1)
+        a.bag = [i]
+        if isinstance(a, U["UAgentSlots"]):
+            a.energy = 2.5 + i
+        try:
+            a.cell = cells[(i * 2 + salt) % len(cells)]
+        except Exception as e:  # noqa: BLE001
+            if not (_raised_in(e, "add_agent") and type(e) is Exception):
+                raise
+    m.uset = U["UAgentSet"](list(m._agents)[::-1], random=m.random)
+    return m, sp
+
+
+def _run_user(case):
+    import gc
+    import warnings
+
+    failures = []
+
+    def add(key, what):
+        failures.append({"key": f"C19/user/{key}", "op": 0, "what": f"[cell_klass={case['cell']}, space={case['space']}, root={case['root']}, "
+                         f"{MECH[case['mech']]}, salt={case['salt']}] {what}"})
+
+    gc.disable()
+    try:
+        with warnings.catch_warnings():
+            warnings.simplefilter("ignore")
+            U = _user_classes()
+            if case["cell"] == "UCellSlots" and not _head_handles_subclass_slots():
+                # FINDING (reported): Cell.__getstate__ iterates self.__slots__, which for a subclass that declares slots of its
+                # own is the SUBCLASS's list only - coordinate, _agents, capacity ... are not carried and the copy cannot even be
+                # reconnected.  Until that is repaired in the source this variant cannot be demanded; it switches itself on when
+                # the probe sees the base slots in the state.
+                return {"obs": [], "failures": failures, "model": False}
+            m, sp = _user_build(case)
+            before = _udescribe(sp, m)
+            uset_before = [(type(a).__qualname__, a.vid) for a in m.uset]
+            root = case["root"]
+            try:
+                if root == "callback":
+                    # user code inside an activation copies the model; a later callback raises half-way, the caller carries on
+                    def hook(agent):
+                        if agent.vid == 2:
+                            agent.model.copies.append(_xcopy(agent.model, case["mech"]))
+                        if agent.vid == 4:
+                            raise KeyError("user code fails half-way")
+                    try:
+                        m.agents.do(hook)
+                    except KeyError:
+                        pass
+                    if not m.copies:
+                        return {"obs": [], "failures": failures, "model": False}
+                    m2 = m.copies.pop()
+                    m.copies.clear()
+                    before = _udescribe(sp, m)
+                    m2.copies.clear()
+                elif root == "model":
+                    m2 = _xcopy(m, case["mech"])
+                elif root == "space":
+                    cp = _xcopy(sp, case["mech"])
+                    m2 = next(a for c in cp._cells.values() for a in c._agents).model
+                elif root == "agent":
+                    m2 = _xcopy(next(a for c in sp._cells.values() for a in c._agents), case["mech"]).model
+                elif root == "agentset":
+                    cp = _xcopy(m.agents, case["mech"])
+                    keep = list(cp)
+                    m2 = keep[0].model
+                else:
+                    cp = _xcopy(m.uset, case["mech"])
+                    keep = list(cp)
+                    if type(cp) is not U["UAgentSet"]:
+                        add("unfaithful-class", f"the copy of an AgentSet subclass is a {type(cp).__qualname__}")
+                    if [(type(a).__qualname__, a.vid) for a in keep] != uset_before or cp.labels() != [v for _, v in uset_before]:
+                        add("unfaithful-members", "members / order of the copied AgentSet subclass differ")
+                    m2 = keep[0].model
+            except Exception as e:  # noqa: BLE001
+                add("copy-raises", f"copying raised {type(e).__name__}: {str(e)[:160]}")
+                return {"obs": [], "failures": failures, "model": False}
+            sp2 = m2.grid
+            d2 = _udescribe(sp2, m2)
+            for aspect in before:
+                if d2[aspect] != before[aspect]:
+                    add(f"unfaithful-{aspect}", f"{aspect} of the copy differ from the original (user attributes and classes included)")
+            if [(type(a).__qualname__, a.vid) for a in m2.uset] != uset_before or type(m2.uset) is not U["UAgentSet"]:
+                add("unfaithful-members", "the AgentSet subclass held by the model was not carried faithfully")
+            ids = lambda x, mm: {id(x), id(mm)} | {id(c) for c in x._cells.values()} | {id(a) for a in mm._agents}  # noqa: E731
+            if ids(sp, m) & ids(sp2, m2):
+                add("not-detached-shared-object", "the copy shares a space / cell / agent object with the original")
+            why = _xnbhd_ok(sp2)
+            if why:
+                add("cached-neighborhood-stale", why)
+            own = {id(c) for c in sp2._cells.values()}
+            for c in sp2._cells.values():
+                if "wide" in c.__dict__ and any(id(x) not in own for x in c.wide):
+                    add("cached-neighborhood-stale", "a cached_property added by the Cell subclass refers to cells of the original")
+                    break
+            if isinstance(sp2, U["UGrid"]) and getattr(sp2, "connected", 0) < 1:
+                add("unfaithful-space_attrs", "the overridden _connect_cells hook did not run for the copy")
+            # continue on the copy: moves, attribute writes; the original must not move; the copy keeps behaving
+            ags = [a for c in sp2._cells.values() for a in c._agents]
+            free = [c for c in sp2._cells.values() if c.is_empty]
+            if ags and free:
+                ags[0].cell = free[0]
+                ags[0].bag.append("moved")
+            for c in sp2._cells.values():
+                if hasattr(c, "visits"):
+                    c.visits = -1
+                if hasattr(sp2, "_mesa_property_layers") and bool(c.empty) != bool(c.is_empty):
+                    add("empty-layer-not-tracking", f"after a move on the copy cell {c.coordinate} has empty = {bool(c.empty)}, is_empty = {c.is_empty}")
+                    break
+            if _udescribe(sp, m) != before:
+                add("not-independent", "operations on the copy changed the original")
+    except Exception as e:  # noqa: BLE001
+        add("unexpected-exception", f"{type(e).__name__}: {str(e)[:200]}")
+    finally:
+        gc.enable()
+    return {"obs": [], "failures": failures, "model": False}
+
+
 def _run_aset(case):
     import copy
     import gc
@@ -2172,6 +2518,8 @@ def run_impl(case):
         return _run_multi(case)
     if case["kind"] == "scale":
         return _run_scale(case)
+    if case["kind"] == "user":
+        return _run_user(case)
     if case["kind"] == "aset":
         return _run_aset(case)
     return _run_space(case)
@@ -2242,7 +2590,7 @@ def _coq_dummy():
 
 
 def coq_case(case):
-    if case["kind"] in ("exotic", "multi", "scale"):
+    if case["kind"] in ("exotic", "multi", "scale", "user"):
         return _coq_dummy()
     ops = L.lst([_coq_wop(o) for o in case.get("_ops_for_model") or case["ops"]])
     return f"{{| wc_case := {_coq_inner_case(case)}; wc_ops := {ops} |}}"
@@ -2266,6 +2614,8 @@ def op_kinds(case):
         return [f"multi/{'+'.join(case['combo'])}/{case['root']}/{MECH[case['mech']]}"]
     if case["kind"] == "scale":
         return [f"scale/{case['variant']}/{case['n']}/{MECH[case['mech']]}"]
+    if case["kind"] == "user":
+        return [f"user/{case['cell']}/{case['space']}/{case['root']}/{MECH[case['mech']]}"]
     out = []
     for op in case["ops"]:
         if op[0] == "copy":
@@ -2285,7 +2635,7 @@ def _state_part(o):
 
 
 def nontrivial(case):
-    if case["kind"] in ("exotic", "multi", "scale"):
+    if case["kind"] in ("exotic", "multi", "scale", "user"):
         return True
     obs = case.get("_obs", [])
     copied = False
@@ -2314,13 +2664,16 @@ LEVEL_TEXT = ("38 machine-checked Coq theorems (all closed under the global cont
               "constructs of the copy hooks are re-translated from the working tree on every run and bridge lemmas prove "
               "copy_space / copy_set ARE the translated code (C19_source_code_is_model, C19_faithful_of_source, ...).  T2: "
               "differential evaluation of run_world on random, corpus and enumerated histories; an independent oracle "
-              "(freshly built twin, identity checks, exotic value/class/size stream) supplies failing inputs.")
+              "(freshly built twin, identity checks, exotic value/class/size, several-spaces, process-scale and user-subclass "
+              "streams) supplies failing inputs.")
 LEVEL_NOTE = ("Theorems are about the model. Trusted: Coq kernel, pyexpr/tables translators, driver/observer, CPython attribute "
               "lookup, copy/pickle memo semantics, weak references as modelled. Geometry is an input table (C07). Oracle-only: "
-              "non-int values, exotic classes, large chains. Defects repaired: C19-1 (Grid copies: one class per cell, "
+              "non-int values, exotic classes, large chains, several spaces per root, process scale, user subclasses of Cell / "
+              "agents / AgentSet / spaces / PropertyLayer (user code is an input; the model is unchanged). Defects repaired: C19-1 (Grid copies: one class per cell, "
               "descriptors on (0,0) only, non-2-D KeyError), C19-2 (deepcopy built the first occupied cell twice); found in "
               "round 5, patch fixes/C19-3: a Network/Voronoi whose cached neighborhoods were read cannot be copied "
-              "(RecursionError from ~100 cells; key C19/Network/exotic/copy-raises). No axioms.")
+              "(RecursionError from ~100 cells; key C19/Network/exotic/copy-raises); found in wave 10, patch fixes/C19-4: a Cell "
+              "subclass declaring __slots__ cannot be copied at all (AttributeError 'coordinate'). No axioms.")
 TECHNIQUE = ("Coq proof (heap invariants and refinement by induction over op lists, closed under global context) + code-level "
              "translation with bridge lemmas (T1) + vm_compute correspondence (T2) + twin / exotic oracle")
 
